@@ -34,7 +34,7 @@ __TAPKEE_IMPLEMENTATION(Isomap)
             eigendecomposition_via(LargestEigenvalues, shortest_distances_matrix, parameters[target_dimension]);
 
         for (IndexType i = 0; i < static_cast<IndexType>(parameters[target_dimension]); i++)
-            embedding.first.col(i).array() *= sqrt(embedding.second(i));
+            embedding.first.col(i).array() *= sqrt(std::max<ScalarType>(embedding.second(i), 0.0));
 
         return TapkeeOutput(embedding.first, unimplementedProjectingFunction());
     }
